@@ -99,3 +99,79 @@ def word_ci(w):
 
 
 EPS = R("eps")
+
+
+# ---------------------------------------------------------------- Python `re` pattern -> R (subset)
+def from_python(pattern, flags=0):
+    """Translate a Python regular expression (the subset used in lasio's tables:
+    literals, classes, \\d \\w \\s, ranges, groups, alternation, * + ? {m,n}) into R.
+    Raises ValueError outside the subset (then the lemma is out of reach)."""
+    try:
+        import re._parser as sp
+        import re._constants as sc
+    except ImportError:          # Python < 3.11
+        import sre_parse as sp
+        import sre_constants as sc
+    tree = sp.parse(pattern, flags)
+
+    def chars(cs):
+        return alt(*[lit(c) for c in cs]) if cs else None
+
+    DIGIT = rng("0", "9")
+    WORD = alt(rng("0", "9"), rng("a", "z"), rng("A", "Z"), lit("_"))
+    SPACE = alt(*[lit(c) for c in " \t\n\r\x0b\x0c"])
+
+    def category(c):
+        if c == sc.CATEGORY_DIGIT:
+            return DIGIT
+        if c == sc.CATEGORY_WORD:
+            return WORD
+        if c == sc.CATEGORY_SPACE:
+            return SPACE
+        raise ValueError("regex category %r" % (c,))
+
+    def seq(items):
+        out = EPS
+        first = True
+        for op, av in items:
+            r = node(op, av)
+            out = r if first else out + r
+            first = False
+        return out
+
+    def node(op, av):
+        if op == sc.LITERAL:
+            return lit(chr(av))
+        if op == sc.IN:
+            parts = []
+            for o2, a2 in av:
+                if o2 == sc.LITERAL:
+                    parts.append(lit(chr(a2)))
+                elif o2 == sc.RANGE:
+                    parts.append(rng(chr(a2[0]), chr(a2[1])))
+                elif o2 == sc.CATEGORY:
+                    parts.append(category(a2))
+                else:
+                    raise ValueError("regex class item %r" % (o2,))
+            return alt(*parts)
+        if op == sc.SUBPATTERN:
+            return seq(av[3])
+        if op == sc.BRANCH:
+            return alt(*[seq(b) for b in av[1]])
+        if op in (sc.MAX_REPEAT, sc.MIN_REPEAT):
+            lo, hi, sub = av
+            r = seq(sub)
+            if hi == sc.MAXREPEAT:
+                base = star(r)
+                for _ in range(lo):
+                    base = r + base
+                return base
+            out = EPS
+            for k in range(hi, 0, -1):
+                out = opt(r + out) if k > lo else r + out
+            return out
+        if op == sc.CATEGORY:
+            return category(av)
+        raise ValueError("regex construct %r" % (op,))
+
+    return seq(list(tree))
